@@ -1,4 +1,9 @@
 import Mp4ff.Model.AvcSps
+import Mp4ff.Model.AvcPps
+import Mp4ff.Model.HevcSps
+import Mp4ff.Model.HevcPps
+import Mp4ff.Model.AvcSlice
+import Mp4ff.Model.HevcSlice
 import Mp4ff.Driver.Util
 namespace Mp4ff.Driver.C15
 open Mp4ff Mp4ff.BitSyn Mp4ff.AvcSps Mp4ff.Driver
@@ -47,6 +52,376 @@ def record (t : Trace) : Option String := do
     else [s!"{n}={v}"]
   some (" ".intercalate parts ++ s!" dims={w}x{h}")
 
+/-- the parsed PPS in the canonical text (fields of the Go struct in syntax order; the tail fields print as their
+    zero defaults when `more_rbsp_data()` was false, as the struct does not record their presence) -/
+def ppsRecord (t : Trace) (more : Bool) : String :=
+  let parts := t.flatMap fun (n, v) =>
+    if n == "nal_header" ∨ n == "scaling_list_present" ∨ n == "delta_scale" then []
+    else if n == "pic_scaling_matrix_present_flag" ∧ v = 1 then [s!"{n}={v}", "lists=" ++ scalingLists t]
+    else if n == "pic_parameter_set_id" ∨ n == "seq_parameter_set_id" then [s!"{n}={v.toNat % 2 ^ 32}"]
+    else [s!"{n}={v}"]
+  let dflt := if more then [] else
+    ["transform_8x8_mode_flag=0", "pic_scaling_matrix_present_flag=0", "second_chroma_qp_index_offset=0"]
+  " ".intercalate (parts ++ dflt)
+
+/-- "-" or "id:chroma,id:chroma" -/
+def parseSpsMap (s : String) : Option (List (Nat × Nat)) :=
+  if s = "-" then some [] else
+  (s.splitOn ",").mapM fun kv =>
+    match kv.splitOn ":" with
+    | [a, b] => do pure (← a.toNat?, ← b.toNat?)
+    | _ => none
+
+/-! ### HEVC SPS record -/
+
+def hevcHidden : List String := ["nal_header", "reserved_zero_2bits", "scaling_list_pred_mode_flag",
+  "scaling_list_pred_matrix_id_delta", "scaling_list_dc_coef_minus8", "scaling_list_delta_coef",
+  "aspect_ratio_info_present_flag", "aspect_ratio_idc", "sar_width", "sar_height"] ++ HevcSps.rpsNames
+
+def hevcMask8 : List String := ["sps_seq_parameter_set_id", "chroma_format_idc", "bit_depth_luma_minus8",
+  "bit_depth_chroma_minus8", "log2_max_pic_order_cnt_lsb_minus4", "sps_max_dec_pic_buffering_minus1",
+  "sps_max_num_reorder_pics", "sps_max_latency_increase_plus1", "log2_min_luma_coding_block_size_minus3",
+  "log2_diff_max_min_luma_coding_block_size", "log2_min_luma_transform_block_size_minus2",
+  "log2_diff_max_min_luma_transform_block_size", "max_transform_hierarchy_depth_inter",
+  "max_transform_hierarchy_depth_intra", "num_short_term_ref_pic_sets", "num_long_term_ref_pics_sps", "cpb_cnt_minus1"]
+
+def hevcMask16 : List String := ["log2_min_pcm_luma_coding_block_size_minus3",
+  "log2_diff_max_min_pcm_luma_coding_block_size", "lt_ref_pic_poc_lsb_sps", "elemental_duration_in_tc_minus1"]
+
+def hevcMask32 : List String := ["pic_width_in_luma_samples", "pic_height_in_luma_samples", "conf_win_left_offset",
+  "conf_win_right_offset", "conf_win_top_offset", "conf_win_bottom_offset", "bit_rate_value_minus1",
+  "cpb_size_value_minus1", "cpb_size_du_value_minus1", "bit_rate_du_value_minus1"]
+
+def showRps (r : HevcSps.Rps) : String :=
+  let l (x : List (Nat × Bool)) : String :=
+    if x.isEmpty then "-" else ",".intercalate (x.map fun (d, u) => s!"{d}.{if u then 1 else 0}")
+  s!"s0:{l r.s0};s1:{l r.s1};n={r.numDelta}"
+
+def hevcSar (t : Trace) : Nat × Nat :=
+  if t.get "aspect_ratio_info_present_flag" = 1 then
+    if t.nat "aspect_ratio_idc" = 255 then (t.nat "sar_width", t.nat "sar_height")
+    else (sarOfIdc (t.nat "aspect_ratio_idc")).getD (0, 0)
+  else (0, 0)
+
+def hevcParts (full : Trace) : Trace → List String
+  | [] => []
+  | (n, v) :: rest =>
+    let here : List String :=
+      if hevcHidden.contains n then []
+      else if n.endsWith "_hi16" then []
+      else if n.endsWith "_lo32" then
+        let base := (n.dropEnd 5).toString
+        -- the 16 high bits are the entry just before in the trace; `rest` no longer has it, so look it up by position
+        let hi := ((full.take (full.length - rest.length - 1)).getLast?.map (·.2)).getD 0
+        [s!"{base}={hi.toNat * 2 ^ 32 + v.toNat}"]
+      else if hevcMask8.contains n then [s!"{n}={v.toNat % 256}"]
+      else if hevcMask16.contains n then [s!"{n}={v.toNat % 65536}"]
+      else if hevcMask32.contains n then [s!"{n}={v.toNat % 2 ^ 32}"]
+      else [s!"{n}={v}"]
+    let extra : List String :=
+      if n == "num_short_term_ref_pic_sets" then
+        let sets := HevcSps.rpsSets full
+        ["rps=" ++ (if sets.isEmpty then "-" else "|".intercalate (sets.map showRps))]
+      else if n == "vui_parameters_present_flag" ∧ v = 1 then
+        let (sw, sh) := hevcSar full
+        [s!"sar={sw}:{sh}"]
+      else []
+    here ++ extra ++ hevcParts full rest
+
+def hevcSpsRecord (t : Trace) (ext : List Bool) : String :=
+  let (w, h) := HevcSps.dims t
+  let e := if ext.isEmpty then "-" else String.join (ext.map fun b => if b then "1" else "0")
+  " ".intercalate (hevcParts t t ++ [s!"ext_data={e}", s!"dims={w}x{h}"])
+
+/-! ### HEVC PPS record -/
+
+def toI8 (v : Int) : Int := (v + 128) % 256 - 128
+def toI16 (v : Int) : Int := (v + 32768) % 65536 - 32768
+
+def octNames : List String := ["split_octant_flag_d0", "split_octant_flag_d1", "split_octant_flag_d2",
+  "coded_res_flag", "res_coeff_q", "res_coeff_r", "res_coeff_s"]
+
+def refLocNames : List String := ["ref_loc_offset_layer_id", "scaled_ref_layer_offset_present_flag",
+  "scaled_ref_layer_left_offset", "scaled_ref_layer_top_offset", "scaled_ref_layer_right_offset",
+  "scaled_ref_layer_bottom_offset", "ref_region_offset_present_flag", "ref_region_left_offset",
+  "ref_region_top_offset", "ref_region_right_offset", "ref_region_bottom_offset", "resample_phase_set_present_flag",
+  "phase_hor_luma", "phase_ver_luma", "phase_hor_chroma_plus8", "phase_ver_chroma_plus8"]
+
+def hpHidden : List String := ["nal_header", "scaling_list_pred_mode_flag", "scaling_list_pred_matrix_id_delta",
+  "scaling_list_dc_coef_minus8", "scaling_list_delta_coef"] ++ octNames ++ refLocNames
+
+def hpI8 : List String := ["init_qp_minus26", "pps_cb_qp_offset", "pps_cr_qp_offset", "pps_beta_offset_div2",
+  "pps_tc_offset_div2", "cb_qp_offset_list", "cr_qp_offset_list"]
+
+def hpI16 : List String := ["scaled_ref_layer_left_offset", "scaled_ref_layer_top_offset",
+  "scaled_ref_layer_right_offset", "scaled_ref_layer_bottom_offset", "ref_region_left_offset", "ref_region_top_offset",
+  "ref_region_right_offset", "ref_region_bottom_offset"]
+
+def hpU8 : List String := ["num_ref_idx_l0_default_active_minus1", "num_ref_idx_l1_default_active_minus1",
+  "phase_hor_luma", "phase_ver_luma", "phase_hor_chroma_plus8", "phase_ver_chroma_plus8"]
+
+def hpShow (n : String) (v : Int) : String :=
+  if hpI8.contains n then s!"{n}={toI8 v}"
+  else if hpI16.contains n then s!"{n}={toI16 v}"
+  else if hpU8.contains n then s!"{n}={v.toNat % 256}"
+  else if n == "pps_pic_parameter_set_id" ∨ n == "pps_seq_parameter_set_id" then s!"{n}={v.toNat % 2 ^ 32}"
+  else s!"{n}={v}"
+
+/-- the ref_loc_offset groups: (layer id, text of the fields); a later group with the same id replaces an earlier one
+    (the parser keeps them in a map keyed by the id) -/
+def refLocGroups (t : Trace) : List (Int × String) :=
+  let es := t.filter (fun e => refLocNames.contains e.1)
+  let gs : List (Int × List String) := es.foldl (fun acc e =>
+    if e.1 == "ref_loc_offset_layer_id" then acc ++ [(e.2, [])]
+    else match acc.getLast? with
+      | some (id, fs) => acc.dropLast ++ [(id, fs ++ [hpShow e.1 e.2])]
+      | none => acc) []
+  gs.map fun (id, _) =>
+    let last := ((gs.filter (·.1 == id)).getLast?.map (·.2)).getD []
+    (id, ",".intercalate last)
+
+/-- three coefficients of one coded octant corner -/
+def octCoefs : Nat → Trace → List String → List String × Trace
+  | 0, es, acc => (acc, es)
+  | n + 1, es, acc =>
+    match es with
+    | (_, q) :: (_, r) :: rest =>
+      if q ≠ 0 ∨ r ≠ 0 then
+        match rest with
+        | (_, sg) :: rest' => octCoefs n rest' (acc ++ [s!"{q}.{r}.{sg}"])
+        | [] => (acc ++ [s!"{q}.{r}.0"], [])
+      else octCoefs n rest (acc ++ [s!"{q}.{r}.0"])
+    | _ => (acc, [])
+
+/-- the four corners of one octant -/
+def octCorners : Nat → Trace → List String → List String × Trace
+  | 0, es, acc => (acc, es)
+  | n + 1, es, acc =>
+    match es with
+    | (_, c) :: rest =>
+      if c = 1 then
+        let (cs, rest') := octCoefs 3 rest []
+        octCorners n rest' (acc ++ ["1:" ++ ";".intercalate cs])
+      else octCorners n rest (acc ++ ["0"])
+    | [] => (acc, [])
+
+def octLeaves (octDepth inpDepth idxY idxCb idxCr : Nat) : Nat → Nat → Trace → List ((Nat × Nat × Nat) × String) →
+    List ((Nat × Nat × Nat) × String) × Trace
+  | 0, _, es, acc => (acc, es)
+  | n + 1, i, es, acc =>
+    let (cs, rest) := octCorners 4 es []
+    octLeaves octDepth inpDepth idxY idxCb idxCr n (i + 1) rest
+      (acc ++ [((idxY + i * 2 ^ (octDepth - inpDepth), idxCb, idxCr), "/".intercalate cs)])
+
+/-- `parseColourMappingOctants` replayed on the octant values of a trace -/
+def octWalk (octDepth partNumY : Nat) : Nat → Nat → Nat → Nat → Nat → Nat → Trace →
+    List ((Nat × Nat × Nat) × String) × Trace
+  | 0, _, _, _, _, _, es => ([], es)
+  | fuel + 1, inpDepth, idxY, idxCb, idxCr, inpLength, es =>
+    let (split, es1) : Bool × Trace :=
+      if inpDepth < octDepth then (match es with | (_, v) :: rest => (v = 1, rest) | [] => (false, [])) else (false, es)
+    if split then
+      [(0, 0, 0), (0, 0, 1), (0, 1, 0), (0, 1, 1), (1, 0, 0), (1, 0, 1), (1, 1, 0), (1, 1, 1)].foldl
+        (fun (st : List ((Nat × Nat × Nat) × String) × Trace) (kmn : Nat × Nat × Nat) =>
+          let (k, m, n) := kmn
+          let (sub, rest) := octWalk octDepth partNumY fuel (inpDepth + 1) (idxY + partNumY * k * inpLength / 2)
+            (idxCb + m * inpLength / 2) (idxCr + n * inpLength / 2) (inpLength / 2) st.2
+          (st.1 ++ sub, rest)) ([], es1)
+    else octLeaves octDepth inpDepth idxY idxCb idxCr partNumY 0 es1 []
+
+def keyLe (a b : (Nat × Nat × Nat) × String) : Bool :=
+  let (a1, a2, a3) := a.1
+  let (b1, b2, b3) := b.1
+  a1 < b1 ∨ (a1 = b1 ∧ (a2 < b2 ∨ (a2 = b2 ∧ a3 ≤ b3)))
+
+/-- the octant map in key order (a later octant with the same key replaces an earlier one) -/
+def octText (t : Trace) : String :=
+  let es := t.filter (fun e => octNames.contains e.1)
+  let d := t.nat "cm_octant_depth"
+  let (all, _) := octWalk d (2 ^ t.nat "cm_y_part_num_log2") 5 0 0 0 0 (2 ^ d) es
+  let dedup := all.foldl (fun acc kv => acc.filter (·.1 != kv.1) ++ [kv]) []
+  let sorted := dedup.mergeSort keyLe
+  if sorted.isEmpty then "-" else
+  "|".intercalate (sorted.map fun ((y, cb, cr), s) => s!"{y}-{cb}-{cr}={s}")
+
+def hevcPpsRecord (t : Trace) (ext : List Bool) : String :=
+  let parts := t.flatMap fun (n, v) =>
+    let here := if hpHidden.contains n then [] else [hpShow n v]
+    let extra :=
+      if n == "num_ref_loc_offsets" then
+        let gs := refLocGroups t
+        ["ref_loc=" ++ (if gs.isEmpty then "-" else "|".intercalate (gs.map fun (id, s) => s!"{id}:{s}"))]
+      else if n == "colour_mapping_enabled_flag" ∧ v = 1 then ["octants=" ++ octText t]
+      else []
+    here ++ extra
+  let e := if ext.isEmpty then "-" else String.join (ext.map fun b => if b then "1" else "0")
+  " ".intercalate (parts ++ [s!"ext_data={e}"])
+
+/-! ### AVC slice header record -/
+
+def toI32 (v : Int) : Int := (v + 2 ^ 31) % 2 ^ 32 - 2 ^ 31
+
+def b01 (s : String) : Option Bool := if s = "1" then some true else if s = "0" then some false else none
+
+/-- "-" or comma-separated `id:log2fn:log2poc:sep:fmo:poctype:daz:chroma:w:h:cl:cr:ct:cb` -/
+def parseSpsInfos (s : String) : Option (List AvcSlice.SpsInfo) :=
+  if s = "-" then some [] else
+  (s.splitOn ",").mapM fun e =>
+    match e.splitOn ":" with
+    | [a, b, c, d, e5, f, g, h, i, j, k, l, m, n] => do
+      pure { id := ← a.toNat?, log2MaxFrameNumMinus4 := ← b.toNat?, log2MaxPocLsbMinus4 := ← c.toNat?,
+             separateColourPlane := ← b01 d, frameMbsOnly := ← b01 e5, pocType := ← f.toNat?,
+             deltaPicOrderAlwaysZero := ← b01 g, chromaFormatIdc := ← h.toNat?, width := ← i.toNat?,
+             height := ← j.toNat?, cropLeft := ← k.toNat?, cropRight := ← l.toNat?, cropTop := ← m.toNat?,
+             cropBottom := ← n.toNat? }
+    | _ => none
+
+/-- "-" or comma-separated `id:spsid:bf:red:l0:l1:wp:wb:ent:dbf:nsg:sgmt:sgcr` -/
+def parsePpsInfos (s : String) : Option (List AvcSlice.PpsInfo) :=
+  if s = "-" then some [] else
+  (s.splitOn ",").mapM fun e =>
+    match e.splitOn ":" with
+    | [a, b, c, d, e5, f, g, h, i, j, k, l, m] => do
+      pure { id := ← a.toNat?, spsId := ← b.toNat?, bottomFieldPicOrderInFramePresent := ← b01 c,
+             redundantPicCntPresent := ← b01 d, numRefIdxL0Default := ← e5.toNat?, numRefIdxL1Default := ← f.toNat?,
+             weightedPred := ← b01 g, weightedBipredIdc := ← h.toNat?, entropyCodingMode := ← b01 i,
+             deblockingFilterControlPresent := ← b01 j, numSliceGroupsMinus1 := ← k.toNat?,
+             sliceGroupMapType := ← l.toNat?, sliceGroupChangeRateMinus1 := ← m.toNat? }
+    | _ => none
+
+/-- the `SliceHeader` struct, field by field (every field is the last value read for it, or its zero value) -/
+def sliceRecord (_sm : List AvcSlice.SpsInfo) (pm : List AvcSlice.PpsInfo) (t : Trace) (size : Nat) : String :=
+  let u (n : String) : String := toString (t.nat n % 2 ^ 32)
+  let i (n : String) : String := toString (toI32 (t.get n))
+  let pbs := AvcSlice.st t = 0 ∨ AvcSlice.st t = 3 ∨ AvcSlice.st t = 1
+  " ".intercalate [
+    s!"SliceType={t.nat "slice_type"}", "FirstMBInSlice=" ++ u "first_mb_in_slice",
+    "PicParamID=" ++ u "pic_parameter_set_id", s!"SeqParamID={(AvcSlice.pp pm t).spsId}",
+    "ColorPlaneID=" ++ u "colour_plane_id", "FrameNum=" ++ u "frame_num", "IDRPicID=" ++ u "idr_pic_id",
+    "PicOrderCntLsb=" ++ u "pic_order_cnt_lsb", "DeltaPicOrderCntBottom=" ++ i "delta_pic_order_cnt_bottom",
+    "DeltaPicOrderCnt0=" ++ i "delta_pic_order_cnt_0", "DeltaPicOrderCnt1=" ++ i "delta_pic_order_cnt_1",
+    "RedundantPicCnt=" ++ u "redundant_pic_cnt",
+    s!"NumRefIdxL0ActiveMinus1={if pbs then AvcSlice.numL0 pm t else 0}",
+    s!"NumRefIdxL1ActiveMinus1={if pbs then AvcSlice.numL1 pm t else 0}",
+    "ModificationOfPicNumsIDC=" ++ u "modification_of_pic_nums_idc", "AbsDiffPicNumMinus1=" ++ u "abs_diff_pic_num_minus1",
+    "LongTermPicNum=" ++ u "long_term_pic_num", "AbsDiffViewIdxMinus1=" ++ u "abs_diff_view_idx_minus1",
+    "LumaLog2WeightDenom=" ++ u "luma_log2_weight_denom", "ChromaLog2WeightDenom=" ++ u "chroma_log2_weight_denom",
+    "DifferenceOfPicNumsMinus1=" ++ u "difference_of_pic_nums_minus1", "LongTermFramIdx=" ++ u "long_term_frame_idx",
+    "MaxLongTermFrameIdxPlus1=" ++ u "max_long_term_frame_idx_plus1", "CabacInitIDC=" ++ u "cabac_init_idc",
+    "SliceQPDelta=" ++ i "slice_qp_delta", "SliceQSDelta=" ++ i "slice_qs_delta",
+    "DisableDeblockingFilterIDC=" ++ u "disable_deblocking_filter_idc",
+    "SliceAlphaC0OffsetDiv2=" ++ i "slice_alpha_c0_offset_div2", "SliceBetaOffsetDiv2=" ++ i "slice_beta_offset_div2",
+    "SliceGroupChangeCycle=" ++ u "slice_group_change_cycle", s!"Size={size % 2 ^ 32}",
+    s!"FieldPicFlag={t.get "field_pic_flag"}", s!"BottomFieldFlag={t.get "bottom_field_flag"}",
+    s!"DirectSpatialMvPredFlag={t.get "direct_spatial_mv_pred_flag"}",
+    s!"NumRefIdxActiveOverrideFlag={t.get "num_ref_idx_active_override_flag"}",
+    s!"RefPicListModificationL0Flag={t.get "ref_pic_list_modification_flag_l0"}",
+    s!"RefPicListModificationL1Flag={t.get "ref_pic_list_modification_flag_l1"}",
+    s!"NoOutputOfPriorPicsFlag={t.get "no_output_of_prior_pics_flag"}",
+    s!"LongTermReferenceFlag={t.get "long_term_reference_flag"}", s!"SPForSwitchFlag={t.get "sp_for_switch_flag"}",
+    s!"AdaptiveRefPicMarkingModeFlag={t.get "adaptive_ref_pic_marking_mode_flag"}"]
+
+/-! ### HEVC slice header record -/
+
+/-- the names of SPS / PPS values the slice header model looks at (dropping the others from the traces handed to it
+    changes no `get`/`all` of these names; it only makes the look-ups faster) -/
+def sliceSpsNames : List String := ["sps_seq_parameter_set_id", "log2_min_luma_coding_block_size_minus3",
+  "log2_diff_max_min_luma_coding_block_size", "pic_width_in_luma_samples", "pic_height_in_luma_samples",
+  "separate_colour_plane_flag", "chroma_format_idc", "num_short_term_ref_pic_sets", "num_long_term_ref_pics_sps",
+  "log2_max_pic_order_cnt_lsb_minus4", "long_term_ref_pics_present_flag", "lt_ref_pic_poc_lsb_sps",
+  "used_by_curr_pic_lt_sps_flag", "sps_temporal_mvp_enabled_flag", "sample_adaptive_offset_enabled_flag",
+  "motion_vector_resolution_control_idc"] ++ HevcSps.rpsNames
+
+def slicePpsNames : List String := ["pps_pic_parameter_set_id", "pps_seq_parameter_set_id",
+  "dependent_slice_segments_enabled_flag", "output_flag_present_flag", "num_extra_slice_header_bits",
+  "cabac_init_present_flag", "num_ref_idx_l0_default_active_minus1", "num_ref_idx_l1_default_active_minus1",
+  "pps_slice_chroma_qp_offsets_present_flag", "weighted_pred_flag", "weighted_bipred_flag", "tiles_enabled_flag",
+  "entropy_coding_sync_enabled_flag", "pps_loop_filter_across_slices_enabled_flag",
+  "deblocking_filter_override_enabled_flag", "pps_deblocking_filter_disabled_flag", "lists_modification_present_flag",
+  "slice_segment_header_extension_present_flag", "chroma_qp_offset_list_enabled_flag", "pps_curr_pic_ref_enabled_flag",
+  "pps_slice_act_qp_offsets_present_flag"]
+
+/-- the parameter-set maps from lists of NAL units, as `hevc.ParseSPSNALUnit` / `ParsePPSNALUnit` would fill them
+    (sets that do not parse are left out; SPS key = `uint32(SpsID)`, a byte) -/
+def hevcMaps (spsL ppsL : List Bytes) : HevcSlice.PsMap × HevcSlice.PsMap :=
+  let sm : HevcSlice.PsMap := spsL.filterMap fun n =>
+    match HevcSps.parseSps (HevcSps.fuel n) n with
+    | .ok t _ => some (t.nat "sps_seq_parameter_set_id" % 256, t.filter (fun e => sliceSpsNames.contains e.1))
+    | _ => none
+  let ids := sm.map (·.1)
+  let pm : HevcSlice.PsMap := ppsL.filterMap fun n =>
+    match HevcPps.parsePps (HevcPps.fuel n) ids n with
+    | .ok t _ => some (t.nat "pps_pic_parameter_set_id" % 2 ^ 32, t.filter (fun e => slicePpsNames.contains e.1))
+    | _ => none
+  (sm, pm)
+
+def hexList (s : String) : Option (List Bytes) :=
+  if s = "-" then some [] else (s.splitOn ",").mapM fromHex
+
+def showL (l : List String) : String := if l.isEmpty then "-" else ",".intercalate l
+
+/-- the `SliceHeader` struct: scalars (last value read or the zero/inferred value), then the lists -/
+def hevcSliceRecord (sm pm : HevcSlice.PsMap) (t : Trace) (size : Nat) : String :=
+  let indep := ¬ HevcSlice.dependent t
+  let pb := indep ∧ (HevcSlice.isP t ∨ HevcSlice.isB t)
+  let s := HevcSlice.sp sm pm t
+  let nls := min (HevcSlice.nlSps t) (HevcSlice.ltIter t)
+  let idxs := t.all "lt_idx_sps"
+  let spsIdx (i : Nat) : Nat := if HevcSlice.numLt s > 1 then (idxs.getD i 0).toNat else 0
+  let ltPoc := (List.range nls).map (fun i => toString ((HevcSps.nth s "lt_ref_pic_poc_lsb_sps" (spsIdx i)).toNat % 65536)) ++
+    (t.all "poc_lsb_lt").map (fun v => toString (v.toNat % 65536))
+  let ltUsed := (List.range nls).map (fun i => toString (HevcSps.nth s "used_by_curr_pic_lt_sps_flag" (spsIdx i))) ++
+    (t.all "used_by_curr_pic_lt_flag").map toString
+  let u8 (n : String) : String := toString (t.nat n % 256)
+  let i8 (n : String) : String := toString (toI8 (t.get n))
+  let all (n : String) (f : Int → String) : String := showL ((t.all n).map f)
+  " ".intercalate [
+    s!"SliceType={t.nat "slice_type"}", s!"FirstSliceSegmentInPicFlag={t.get "first_slice_segment_in_pic_flag"}",
+    s!"NoOutputOfPriorPicsFlag={t.get "no_output_of_prior_pics_flag"}",
+    s!"PicParameterSetId={t.nat "slice_pic_parameter_set_id" % 2 ^ 32}",
+    s!"DependentSliceSegmentFlag={t.get "dependent_slice_segment_flag"}", s!"SegmentAddress={t.nat "slice_segment_address"}",
+    s!"PicOutputFlag={t.get "pic_output_flag"}", "ColourPlaneId=" ++ u8 "colour_plane_id",
+    s!"PicOrderCntLsb={t.nat "slice_pic_order_cnt_lsb" % 65536}",
+    s!"ShortTermRefPicSetSpsFlag={t.get "short_term_ref_pic_set_sps_flag"}",
+    "ShortTermRefPicSet=" ++ showRps (if indep then HevcSlice.sliceRps sm pm t else {}),
+    "ShortTermRefPicSetIdx=" ++ u8 "short_term_ref_pic_set_idx", "NumLongTermSps=" ++ u8 "num_long_term_sps",
+    s!"NumLongTermPics={t.nat "num_long_term_pics"}",
+    "LtPoc=" ++ showL ltPoc, "LtUsed=" ++ showL ltUsed, "LtMsbPresent=" ++ all "delta_poc_msb_present_flag" toString,
+    "LtMsbCycle=" ++ all "delta_poc_msb_cycle_lt" toString,
+    s!"TemporalMvpEnabledFlag={t.get "slice_temporal_mvp_enabled_flag"}", s!"SaoLumaFlag={t.get "slice_sao_luma_flag"}",
+    s!"SaoChromaFlag={t.get "slice_sao_chroma_flag"}",
+    s!"NumRefIdxActiveOverrideFlag={t.get "num_ref_idx_active_override_flag"}",
+    s!"NumRefIdxL0ActiveMinus1={if pb then HevcSlice.numL0 pm t else 0}",
+    s!"NumRefIdxL1ActiveMinus1={if pb then HevcSlice.numL1 pm t else 0}",
+    s!"RplmL0={t.get "ref_pic_list_modification_flag_l0"}", "ListEntryL0=" ++ all "list_entry_l0" (fun v => toString (v.toNat % 256)),
+    s!"RplmL1={t.get "ref_pic_list_modification_flag_l1"}", "ListEntryL1=" ++ all "list_entry_l1" (fun v => toString (v.toNat % 256)),
+    s!"MvdL1ZeroFlag={t.get "mvd_l1_zero_flag"}", s!"CabacInitFlag={t.get "cabac_init_flag"}",
+    s!"CollocatedFromL0Flag={if pb ∧ t.get "slice_temporal_mvp_enabled_flag" = 1 ∧ HevcSlice.isB t then t.get "collocated_from_l0_flag" else 1}",
+    "CollocatedRefIdx=" ++ u8 "collocated_ref_idx",
+    "LumaLog2WeightDenom=" ++ u8 "luma_log2_weight_denom", "DeltaChromaLog2WeightDenom=" ++ i8 "delta_chroma_log2_weight_denom",
+    "LumaWeightFlagL0=" ++ all "luma_weight_l0_flag" toString, "ChromaWeightFlagL0=" ++ all "chroma_weight_l0_flag" toString,
+    "DeltaLumaWeightL0=" ++ all "delta_luma_weight_l0" (fun v => toString (toI8 v)), "LumaOffsetL0=" ++ all "luma_offset_l0" toString,
+    "DeltaChromaWeightL0=" ++ all "delta_chroma_weight_l0" (fun v => toString (toI8 v)),
+    "DeltaChromaOffsetL0=" ++ all "delta_chroma_offset_l0" toString,
+    "LumaWeightFlagL1=" ++ all "luma_weight_l1_flag" toString, "ChromaWeightFlagL1=" ++ all "chroma_weight_l1_flag" toString,
+    "DeltaLumaWeightL1=" ++ all "delta_luma_weight_l1" (fun v => toString (toI8 v)), "LumaOffsetL1=" ++ all "luma_offset_l1" toString,
+    "DeltaChromaWeightL1=" ++ all "delta_chroma_weight_l1" (fun v => toString (toI8 v)),
+    "DeltaChromaOffsetL1=" ++ all "delta_chroma_offset_l1" toString,
+    "FiveMinusMaxNumMergeCand=" ++ u8 "five_minus_max_num_merge_cand", s!"UseIntegerMvFlag={t.get "use_integer_mv_flag"}",
+    s!"QpDelta={t.get "slice_qp_delta"}", "CbQpOffset=" ++ i8 "slice_cb_qp_offset", "CrQpOffset=" ++ i8 "slice_cr_qp_offset",
+    "ActYQpOffset=" ++ i8 "slice_act_y_qp_offset", "ActCbQpOffset=" ++ i8 "slice_act_cb_qp_offset",
+    "ActCrQpOffset=" ++ i8 "slice_act_cr_qp_offset",
+    s!"CuChromaQpOffsetEnabledFlag={t.get "cu_chroma_qp_offset_enabled_flag"}",
+    s!"DeblockingFilterOverrideFlag={t.get "deblocking_filter_override_flag"}",
+    s!"DeblockingFilterDisabledFlag={if indep ∧ HevcSlice.deblockDisabled pm t then 1 else 0}",
+    "BetaOffsetDiv2=" ++ i8 "slice_beta_offset_div2", "TcOffsetDiv2=" ++ i8 "slice_tc_offset_div2",
+    s!"LoopFilterAcrossSlicesEnabledFlag={t.get "slice_loop_filter_across_slices_enabled_flag"}",
+    s!"NumEntryPointOffsets={t.nat "num_entry_point_offsets"}", "OffsetLenMinus1=" ++ u8 "offset_len_minus1",
+    "EntryPointOffsetMinus1=" ++ all "entry_point_offset_minus1" (fun v => toString (v.toNat % 2 ^ 32)),
+    s!"SegmentHeaderExtensionLength={t.nat "slice_segment_header_extension_length" % 65536}",
+    "SegmentHeaderExtensionDataByte=" ++ all "slice_segment_header_extension_data_byte" toString,
+    s!"Size={size % 2 ^ 32}"]
+
 def dispatch (op : String) (args : List String) : Option String :=
   match op, args with
   | "avcsps", [mode, h] => do
@@ -64,6 +439,44 @@ def dispatch (op : String) (args : List String) : Option String :=
       | some (t, e) =>
         if e.err then pure "err" else
         pure (match record t with | some r => r | none => "err")
+  | "avcppsm", [m, h] => do
+      let nalu ← fromHex h
+      let spsMap ← parseSpsMap m
+      match AvcPps.parsePps (AvcPps.fuel nalu) spsMap nalu with
+      | .fuel => pure "fuel"
+      | .err => pure "err"
+      | .ok t more => pure (ppsRecord t more)
+  | "hevcspsm", [h] => do
+      let nalu ← fromHex h
+      match HevcSps.parseSps (HevcSps.fuel nalu) nalu with
+      | .fuel => pure "fuel"
+      | .err => pure "err"
+      | .ok t ext => pure (hevcSpsRecord t ext)
+  | "hevcppsm", [m, h] => do
+      let nalu ← fromHex h
+      let ids ← natList m
+      match HevcPps.parsePps (HevcPps.fuel nalu) ids nalu with
+      | .fuel => pure "fuel"
+      | .err => pure "err"
+      | .ok t ext => pure (hevcPpsRecord t ext)
+  | "avcslicem", [ss, ps, h] => do
+      let nalu ← fromHex h
+      let sm ← parseSpsInfos ss
+      let pm ← parsePpsInfos ps
+      match AvcSlice.parseSlice (AvcSlice.fuel nalu) sm pm nalu with
+      | .fuel => pure "fuel"
+      | .err => pure "err"
+      | .trunc => pure "trunc"
+      | .ok t size => pure (sliceRecord sm pm t size)
+  | "hevcslicem", [ss, ps, h] => do
+      let nalu ← fromHex h
+      let spsL ← hexList ss
+      let ppsL ← hexList ps
+      let (sm, pm) := hevcMaps spsL ppsL
+      match HevcSlice.parseSlice (HevcSlice.fuel nalu) sm pm nalu with
+      | .fuel => pure "fuel"
+      | .err => pure "err"
+      | .ok t size => pure (hevcSliceRecord sm pm t size)
   | _, _ => none
 
 end Mp4ff.Driver.C15
